@@ -86,7 +86,18 @@ func c05TinyAlphabet() []fsx.Op {
 	}
 }
 
+// from the state with the inode table exhausted: 32765 files in one directory of 1024 blocks (its own block tree
+// reaches the double-indirect level); deleting everything frees that directory in the background
+func c05InodeAlphabet() []fsx.Op {
+	return []fsx.Op{
+		{K: "REMOVE", H: "root/bulk", N: "f16000"}, {K: "CREATE", H: "root", N: "n1"}, {K: "MKDIR", H: "root/d", N: "n2"},
+		{K: "RENAME", H: "root/bulk", N: "f00000", H2: "root/bulk", N2: "f00001"}, {K: "RENAME", H: "root", N: "a", H2: "root/bulk", N2: "f32700"},
+		{K: "REMOVETHIRD", H: "root/bulk"}, {K: "RESTART"}, {K: "DELETEALL"},
+	}
+}
+
 func init() {
+	RegisterSeq("c05.inodes", &SeqSpec{Prop: "C05", Prep: "inofull", Alphabet: c05InodeAlphabet(), After: c05After, AllowImplFail: true})
 	RegisterSeq("c05.tiny", &SeqSpec{Prop: "C05", DiskSize: 1539 + 1 + 10, Alphabet: c05TinyAlphabet(), After: c05After, AllowImplFail: true})
 	Checks["C05"] = C05
 	RegisterSeq("c05.seq", &SeqSpec{Prop: "C05", DiskSize: 2200, Alphabet: c05Alphabet(), After: c05After,
@@ -99,10 +110,11 @@ func C05(r *report.Report, tier string) {
 		depth, bound, maxImg = 4, 2, 0
 	}
 	r.Only = map[string]bool{"C05": true}
-	r.Rule = fmt.Sprintf("(i) breadth-first search to depth %d over a %d-symbol build/delete alphabet (files of every size class, sparse file freed in the background, hole filled by a read, shrink/grow, renames over existing targets, refused operations, restart, delete-everything) on a 2200-block disk, and a second search on a disk with 10 free data blocks (allocations that fail half-way, short writes, holes filled without space): after every transition the shrinkers run to completion under the scheduler and the audit demands blocks/inodes marked in use == reachable from the root, in-memory allocators == on-disk bitmaps, and after delete-everything the free counts of the fresh file system; (ii) every crash image (cap %d per history in quick) of histories that remove / truncate a 530-block file freed by several background transactions: after recovery every survivor is touched, files are created until every half-freed inode number has been handed out again, then the same audit; (iii) schedules (<=%d deviations) of the concurrent free harnesses with the audit at the end", depth, len(c05Alphabet()), maxImg, bound)
+	r.Rule = fmt.Sprintf("(i) breadth-first search to depth %d over a %d-symbol build/delete alphabet (files of every size class, sparse file freed in the background, hole filled by a read, shrink/grow, renames over existing targets, refused operations, restart, delete-everything) on a 2200-block disk, and a second search on a disk with 10 free data blocks (allocations that fail half-way, short writes, holes filled without space), and a third (depth one less) from the state with the inode table exhausted - 32765 files in one directory of 1024 blocks, freed in the background when everything is deleted: after every transition the shrinkers run to completion under the scheduler and the audit demands blocks/inodes marked in use == reachable from the root, in-memory allocators == on-disk bitmaps, and after delete-everything the free counts of the fresh file system; (ii) every crash image (cap %d per history in quick) of histories that remove / truncate a 530-block file freed by several background transactions: after recovery every survivor is touched, files are created until every half-freed inode number has been handed out again, then the same audit; (iii) schedules (<=%d deviations) of the concurrent free harnesses with the audit at the end", depth, len(c05Alphabet()), maxImg, bound)
 	s1 := RunSeq(r, "c05.seq", depth)
 	s2 := RunSeq(r, "c05.tiny", depth+1)
-	r.Extra["searches"] = []*SeqSummary{s1, s2}
+	s3 := RunSeq(r, "c05.inodes", depth-1)
+	r.Extra["searches"] = []*SeqSummary{s1, s2, s3}
 	var jobs []crashArg
 	for _, h := range [][]fsx.Op{
 		{{K: "REMOVE", H: "root", N: "big"}},
